@@ -200,6 +200,18 @@ pub struct ExIpAddr(std::net::IpAddr);
 #[verifier::external_type_specification]
 #[verifier::external_body]
 pub struct ExAddrParseError(std::net::AddrParseError);
+// an address from its octets (4 or 16), and its canonical text (Display)
+pub uninterp spec fn ip_from_octets(o: Seq<u8>) -> std::net::IpAddr;
+pub uninterp spec fn ip_text(a: std::net::IpAddr) -> Seq<char>;
+pub assume_specification[ <std::net::IpAddr as From<[u8; 4]>>::from ](o: [u8; 4]) -> (r: std::net::IpAddr)
+    ensures r == ip_from_octets(o@),
+        forall|s: Seq<u8>| s.len() == 4 && (forall|k: int| 0 <= k < 4 ==> s[k] == o@[k]) ==> r == #[trigger] ip_from_octets(s);
+pub assume_specification[ <std::net::IpAddr as From<[u8; 16]>>::from ](o: [u8; 16]) -> (r: std::net::IpAddr)
+    ensures r == ip_from_octets(o@),
+        forall|s: Seq<u8>| s.len() == 16 && (forall|k: int| 0 <= k < 16 ==> s[k] == o@[k]) ==> r == #[trigger] ip_from_octets(s);
+#[verifier::external_body]
+pub broadcast proof fn axiom_ip_to_string(a: &std::net::IpAddr, r: String)
+    ensures #[trigger] vstd::string::to_string_from_display_ensures::<std::net::IpAddr>(a, r) ==> r@ == ip_text(*a) {}
 pub uninterp spec fn ip_is_loopback(a: std::net::IpAddr) -> bool;
 pub uninterp spec fn ip_is_unspecified(a: std::net::IpAddr) -> bool;
 pub uninterp spec fn ip_is_multicast(a: std::net::IpAddr) -> bool;
